@@ -42,6 +42,7 @@ type DebModel struct {
 	Omit         string     `json:"omit,omitempty"`       // member left out: "", "debian-binary", "control", "data"
 	GzSplit      int        `json:"gzSplit,omitempty"`    // > 1: gzip members are written as that many concatenated gzip streams (RFC 1952 allows it)
 	TarDialect   string     `json:"tarDialect,omitempty"` // "" GNU, "ustar", "pax" (see buildTarFmt)
+	SignedCols   int        `json:"signedCols,omitempty"` // 1..3: that member carries a negative timestamp; 4: all members are owned by -1:-2
 }
 
 var codecs = []string{"", "gz", "xz", "bz2", "lzma", "zst"}
@@ -228,7 +229,14 @@ func buildDeb(m DebModel) ([]byte, []ArMember, error) {
 		return nil, nil, err
 	}
 	mk := func(name string, data []byte) ArMember {
-		return ArMember{Name: name, SlashTerm: m.Slash, MTime: 1700000000, Mode: "100644", Data: data}
+		am := ArMember{Name: name, SlashTerm: m.Slash, MTime: 1700000000, Mode: "100644", Data: data}
+		switch {
+		case m.SignedCols == 1 && name == "debian-binary", m.SignedCols == 2 && strings.HasPrefix(name, "control."), m.SignedCols == 3 && strings.HasPrefix(name, "data."):
+			am.MTime = -3600 // stamped before 1970
+		case m.SignedCols == 4:
+			am.UID, am.GID = -1, -2 // owned by nobody
+		}
+		return am
 	}
 	var ms []ArMember
 	if m.Omit != "debian-binary" {
@@ -368,6 +376,9 @@ func genDebModel(t *rapid.T) DebModel {
 		m.GzSplit = rapid.IntRange(2, 4).Draw(t, "gzsplitN")
 	}
 	m.TarDialect = rapid.SampledFrom([]string{"", "", "", "ustar", "pax"}).Draw(t, "tarDialect")
+	if rapid.IntRange(0, 9).Draw(t, "signedColsOn") == 0 {
+		m.SignedCols = rapid.IntRange(1, 4).Draw(t, "signedCols")
+	}
 	ne := rapid.SampledFrom([]int{0, 0, 1, 2}).Draw(t, "nextra")
 	for i := 0; i < ne; i++ {
 		name := rapid.SampledFrom([]string{"_gpgorigin", "_gpgbuilder", "_x", "_meta.json", "_" + genFromAlphabet(t, "en", "abc019", 1, 8)}).Draw(t, "ename")
